@@ -22,6 +22,7 @@ RULE = ( 'full structure grammar (dipoles, V, L, zig-zag, T, 3- and 4-wire stars
 MIN_EVAL = dict (quick = 120, thorough = 2500)
 ANCHORS  = ['Excitation.power', 'Mininec.compute', 'Mininec.compute_far_field', 'Mininec.compute_impedance_matrix_loads', 'Medium.impedance']
 ANCHORS_REQUIRED = ['Excitation.power', 'Mininec.compute_far_field', 'Mininec.compute_impedance_matrix_loads', 'Medium.impedance']
+ANCHORS_MIN = {'Mininec.compute_far_field': 0.9}
 ASSUMPTIONS = [ 'sphere integral by the midpoint rule on the reported dBi table (theta step 1.5, phi step 5 degrees); every 8th case re-integrated at half the step, a change > 2e-3 makes that case inconclusive'
               , 'the validity filter is computed geometrically from the built segments; it is part of the oracle\'s soundness'
               ]
